@@ -96,4 +96,31 @@ func init() {
 		})
 		return fmt.Sprintf("def %s : Bool := %v", f.Lean, p1 != 0 && p2 != 0 && p1 < p2), nil
 	})
+	// calls_method: the function contains a call whose selector name (or plain function name) is
+	// exactly Name.
+	Register("calls_method", func(repo string, f Fact) (string, error) {
+		_, fd, err := findFunc(repo, f.File, f.Func)
+		if err != nil {
+			return "", err
+		}
+		found := false
+		ast.Inspect(fd, func(n ast.Node) bool {
+			c, ok := n.(*ast.CallExpr)
+			if !ok {
+				return true
+			}
+			switch x := c.Fun.(type) {
+			case *ast.SelectorExpr:
+				if x.Sel.Name == f.Name {
+					found = true
+				}
+			case *ast.Ident:
+				if x.Name == f.Name {
+					found = true
+				}
+			}
+			return true
+		})
+		return fmt.Sprintf("def %s : Bool := %v", f.Lean, found), nil
+	})
 }
